@@ -2,7 +2,7 @@
    contains statements, `exact`, and Print Assumptions only. *)
 From Coq Require Import List NArith Bool Sorted.
 From V.gen Require Consts.
-From V.Ts Require Import Model Proofs Answers Extra Report ReportProofs ReportDead ReportDeadProofs.
+From V.Ts Require Import Model Proofs Answers Extra Exact Multi MultiProofs Report ReportProofs ReportDead ReportDeadProofs.
 Import ListNotations.
 Open Scope N_scope.
 
@@ -401,6 +401,62 @@ Theorem C08_force_close_result :
   (r = 3 -> fp = true) /\ r <= 3.
 Proof. exact force_result. Qed.
 Print Assumptions C08_force_close_result.
+
+(* ---- several protocols of one node (Multi.v): every TransportService inside the composition ----
+   N services with their own keep-alive flags and timeouts share the connections: the command
+   channel of a connection (ProtocolSet::rx) with its bounded FIFO queue, the strong-sender count
+   of that channel (ConnectionHandle / Permit), the substream-id counter. For every feasible
+   history of the composition and every service k of it, the events that service hands its
+   protocol for a peer q form (ConnectionEstablished (SubstreamOpened|SubstreamOpenFailure)*
+   ConnectionClosed)* — what the other protocols do on the same connections (their opens, their
+   downgrades, a clogged command channel, the order in which the connection task takes commands)
+   does not disturb it. *)
+Theorem C08_multi_stream_wellformed :
+  forall tr cap cfg n0 q k,
+  mfeasible 2 env0 (minit cap cfg n0) tr = true -> (k < length cfg)%nat ->
+  exists b, wf_run false (pevs q (comp_outs k (mrun (minit cap cfg n0) tr))) = Some b.
+Proof.
+  intros tr cap cfg n0 q k F LT. eexists.
+  apply (multi_stream_wf tr env0 (minit cap cfg n0) q k (minit_exact cap cfg n0) F).
+  unfold minit. cbn [m_svcs]. rewrite map_length. exact LT.
+Qed.
+Print Assumptions C08_multi_stream_wellformed.
+
+(* identifiers returned by open_substream of ALL services of a node, in the order of the calls,
+   are strictly increasing — never reused across protocols either — while the shared counter does
+   not wrap (mdraws: one per open_substream call of any service) *)
+Theorem C08_multi_ids_fresh :
+  forall tr m,
+  m_next m + mdraws tr < ID_MOD ->
+  StronglySorted N.lt (flat_map mret (mrun m tr)) /\
+  Forall (fun i => m_next m <= i) (flat_map mret (mrun m tr)).
+Proof. exact multi_ids_sorted. Qed.
+Print Assumptions C08_multi_ids_fresh.
+
+(* the single-service model leaves "strong senders held by other protocols" to its environment;
+   inside the composition that environment is exact: after every step every service sees, for
+   every connection it knows, precisely the shared channel (the sum over all services of Active
+   handle + live keep-alive substreams + opens in flight) *)
+Theorem C08_multi_view_exact :
+  forall m dt e s c,
+  In s (m_svcs (fst (mstep m dt e))) -> find_ch c (s_chans s) <> None ->
+  strong s c = mstrong (m_svcs (fst (mstep m dt e))) c.
+Proof. exact mstep_view. Qed.
+Print Assumptions C08_multi_view_exact.
+
+(* non-vacuity: two services, command channel of capacity 1: the second open meets a full channel
+   (ChannelClogged) and draws an identifier all the same; the connection task takes the first
+   command, a third open is accepted with the next identifier *)
+Example C08_multi_nonvacuous :
+  let tr := [(0, MAll (EEst 0 1)); (0, MOne 0 (EOpen 0)); (0, MOne 1 (EOpen 0)); (0, MNext 1);
+             (0, MOne 1 (EOpen 0)); (0, MNext 1); (0, MOne 0 (ESubOut 0 true))] in
+  mfeasible 2 env0 (minit 1 [(true, 300); (false, 500)] 0) tr = true /\
+  map (fun o => (map ret_ids (fst o), snd o)) (mrun (minit 1 [(true, 300); (false, 500)] 0) tr) =
+  [([[]; []], NNo); ([[0]; []], NNo); ([[]; []], NNo); ([[]; []], NCmd 0 0);
+   ([[]; [2]], NNo); ([[]; []], NCmd 1 2); ([[]; []], NNo)] /\
+  comp_outs 0 (mrun (minit 1 [(true, 300); (false, 500)] 0) tr) = [OEst 0; ORet 0 0; OCmd 1 0; OSub 0 (Some 0)] /\
+  comp_outs 1 (mrun (minit 1 [(true, 300); (false, 500)] 0) tr) = [OEst 0; ORet 3 0; ORet 0 2; OCmd 1 2].
+Proof. vm_compute. repeat split; reflexivity. Qed.
 
 (* Without C06's "at most two connections per peer" the statement is false: with three, closing
    the ignored third drops the live secondary (secondary.take() on an unknown id), and the
